@@ -9,6 +9,7 @@ Inductive rz :=
 | ZSnapshotAlive | ZPostSentinels
 | ZWaitShrunk               (* while len(self._processes) > max_workers and not broken: sleep *)
 | ZAdjust                   (* _adjust_process_count() *)
+| ZAdjustIfLive             (* if self._flags.broken is None and not self._flags.shutdown: _adjust_process_count() *)
 | ZWaitAllAlive             (* while not broken and not all(p.is_alive() ...): sleep *)
 | ZAcquire | ZRelease.      (* produced by flattening ZLocked *)
 
